@@ -72,11 +72,14 @@ def parse(text: str, want=None, newline_passthrough: bool = True) -> Outcome:
     """Chart.from_file on a StringIO (newline='' so CR LF reach the parser as written)."""
     env.LOG.drain()
     fp = io.StringIO(text, newline="") if newline_passthrough else io.StringIO(text)
+    # (the form is a function of the input, so that a replay of a recorded case takes the same form)
+    _CALLS = len(text) + (len(want) if want is not None and hasattr(want, "__len__") else 0)
     try:
+        # the documented call forms rotate: the selection by keyword or positionally; "no selection" omitted or an explicit None
         if want is None:
-            c = Chart.from_file(fp)
+            c = Chart.from_file(fp) if _CALLS % 3 else (Chart.from_file(fp, None) if _CALLS % 2 else Chart.from_file(fp, want_tracks=None))
         else:
-            c = Chart.from_file(fp, want_tracks=want)
+            c = Chart.from_file(fp, want_tracks=want) if _CALLS % 2 else Chart.from_file(fp, want)
         return Outcome(c, None, env.LOG.drain())
     except Exception as e:  # noqa: BLE001 - the outcome is data for the oracle
         return Outcome(None, e, env.LOG.drain())
